@@ -135,6 +135,16 @@ def transfer(kind, sz, value, sub, latency, junk, res, desc, sz_in=None,
                 r0 = await asyncio.wait_for(term.sdo_read(0x7fff, 1), 2000)
                 if r0 != b"\x05\x06":
                     return ("raised", f"prelude read returned {r0!r}")
+            elif step == "timeout":
+                # an upload the caller gives up (slow terminal): its
+                # response is still to come when the next transfer starts
+                t.mbx_resp_latency = lambda: 60
+                try:
+                    await asyncio.wait_for(term.sdo_read(0x7fff, 1), 0.004)
+                    res.count("preludes_timeout_came_too_late")
+                except asyncio.TimeoutError:
+                    res.count("preludes_with_an_abandoned_upload")
+                t.mbx_resp_latency = lambda: next(lat, 0)
             elif step == "fail":
                 try:
                     await asyncio.wait_for(term.sdo_read(0x7ffe, 1), 2000)
@@ -174,9 +184,15 @@ def transfer(kind, sz, value, sub, latency, junk, res, desc, sz_in=None,
     res.count("mailbox_messages", len(t.mbx_writes) + len(t.mbx_reads))
     problems = []
     toolong = [len(m) for m in srv.errors if "exceeds mailbox" in m]
-    if out[0] != "ok":
+    stale = desc.get("prelude") == "timeout"
+    if out[0] != "ok" and stale:
+        # the stale response of the abandoned upload may make this transfer
+        # fail (the statement promises no success here), but never succeed
+        # with the other object's bytes
+        res.count("transfers_refused_behind_a_stale_response")
+    elif out[0] != "ok":
         problems.append(f"client {out[0]}: {out[1]}")
-    if srv.errors:
+    if srv.errors and not stale:
         problems.append(f"server saw protocol errors: {srv.errors[:2]}")
     if kind == "write" and out[0] == "ok":
         stored = srv.objects.get((index, "CA") if sub is None
@@ -353,7 +369,7 @@ def run_shard(params):
                             # what the same master did before on this
                             # terminal, and the lock kind of its mailbox
                             prelude=rng.choice([None, None, "ok", "fail",
-                                                "ok+fail"]),
+                                                "ok+fail", "timeout"]),
                             parallel_lock=rng.random() < 0.4,
                             value=value.hex()[:64])
                 res.case(desc, nontrivial=ln >= 1)
